@@ -103,6 +103,13 @@ class Gen:
             key = self.ch.draw(self.cfg.keyspace)
         return Item(key, self.uid if not self.prefix else (self.prefix, self.uid), truth)
 
+    def optional(self):
+        """An optional argument: absent, an item, or an explicit ``None`` (a value like any other where the stdlib says so)"""
+        r = self.ch.draw(8)
+        if r < 4:
+            return ABSENT
+        return None if r == 4 else self.item()
+
     def items(self, n=None, falsy=False):
         if n is None:
             n = self.ch.draw(self.cfg.max_len + 1)
@@ -154,7 +161,10 @@ class Gen:
         mode = 0
         if self.cfg.odd_sources and fl in ("aiter_cls", "aiter_full", "aiterable"):
             mode = self.ch.weighted([6, 1, 1])
-        return SrcPlan(name, items, fl, susp, ac, aclose_mode=mode)
+        falsy = False
+        if self.cfg.odd_sources and fl not in ("list", "tuple", "getitem", "agen"):
+            falsy = self.ch.chance(1, 8)
+        return SrcPlan(name, items, fl, susp, ac, aclose_mode=mode, falsy=falsy)
 
     def fn(self, kind, param=0):
         fls = self.cfg.fn_flavours
@@ -817,7 +827,7 @@ class _MinMax(AggBase):
     def gen(self, g):
         items = _odd_items(g, g.items())
         key = g.keyfn()
-        default = ABSENT if not g.ch.chance(1, 2) else g.item()
+        default = g.optional()
         return Spec(self.which, [g.src(items)], [key], {"default": default})
 
     def a(self, L, spec, S, F):
@@ -911,7 +921,7 @@ class _Sorted(AggBase):
 @_reg(AGGS, "reduce")
 class _Reduce(AggBase):
     def gen(self, g):
-        initial = ABSENT if not g.ch.chance(1, 2) else g.item()
+        initial = g.optional()
         return Spec("reduce", [g.src(g.items())], [g.fn("combine")], {"initial": initial})
 
     def a(self, L, spec, S, F):
